@@ -206,18 +206,19 @@ def replay(rep: Report, path: str) -> None:
         ev = common.tlc_eval("ResidualRule_Eval", "ResidualRule_Eval.cfg", need, tag="rreval")
         rep.states += ev["states"]
         rep.transitions += ev["transitions"]
-        for (m, r), o in zip(sweep, ev["out"]):
+        import copy as _copy
+        casts = {"float": lambda z: z.float(), "half": lambda z: z.half(), "bfloat16": lambda z: z.bfloat16(), "to_bf16": lambda z: z.to(torch.bfloat16),
+                 "double": lambda z: z.double(), "deepcopy": lambda z: _copy.deepcopy(z), "train_eval": lambda z: z.eval().train()}
+        for si, ((m, r), o) in enumerate(zip(sweep, ev["out"])):
             mf, rf = float(Fraction(*m)), float(Fraction(*r))
             if c["mode"] == "decoder_inline":
-                layers = list(M.TransformerDecoder(hidden_size=4, vocab_size=5, layers=c["layers"], heads=1, residual_scaling=transformer_residual_scaling_rule(mf, rf)).layers)
+                modobj = M.TransformerDecoder(hidden_size=4, vocab_size=5, layers=c["layers"], heads=1, residual_scaling=transformer_residual_scaling_rule(mf, rf))
             else:
-                layers = list(M.TransformerStack(layers=c["layers"], hidden_size=4, heads=1, is_causal=True, residual_scaling=transformer_residual_scaling_rule(mf, rf)))
-            for h in c.get("module_history", []) if (m, r) == tuple(map(tuple, sweep[-1])) or [m, r] == sweep[-1] else []:
-                import copy as _copy
-                holder = nn_holder = torch.nn.ModuleList(layers)
-                holder = {"float": lambda z: z.float(), "half": lambda z: z.half(), "bfloat16": lambda z: z.bfloat16(), "to_bf16": lambda z: z.to(torch.bfloat16),
-                          "double": lambda z: z.double(), "deepcopy": lambda z: _copy.deepcopy(z), "train_eval": lambda z: z.eval().train()}[h](holder)
-                layers = list(holder)
+                modobj = M.TransformerStack(layers=c["layers"], hidden_size=4, heads=1, is_causal=True, residual_scaling=transformer_residual_scaling_rule(mf, rf))
+            if si == len(sweep) - 1:      # the recorded module history belongs to the last stack of the sweep
+                for h in c.get("module_history", []):
+                    modobj = casts[h](modobj)
+            layers = list(modobj.layers) if c["mode"] == "decoder_inline" else list(modobj)
             for k, layer in enumerate(layers):
                 if not cmp_tau(rep, layer.mhsa_tau, o[2 * k], f"replay {c['mode']} layer {k} mhsa_tau", c, key=f"{c['mode']}:mhsa") or \
                         not cmp_tau(rep, layer.mlp_tau, o[2 * k + 1], f"replay {c['mode']} layer {k} mlp_tau", c, key=f"{c['mode']}:mlp"):
